@@ -26,6 +26,8 @@ THENS = ['state B is entered', 'state B is not entered', 'state B is exited', 's
          'event out is fired', 'event out is fired with v=5', 'event out is not fired', 'no event is fired',
          'event out is fired\n  | parameter | value |\n  | v | 5 |\n  | w | 16 |',
          'variable x equals 3', 'variable x does not equal 3', 'variable nope equals 1',
+         'variable nothing equals None', 'variable nothing does not equal 3', 'variable zero equals 0',
+         'variable zero does not equal 0',
          'expression "x == 3" holds', 'expression "x == 3" does not hold',
          'statechart is in a final configuration', 'statechart is not in a final configuration']
 LEVELS = {
@@ -49,7 +51,10 @@ OUTSIDE = ['behave feature-file parsing, runner, formatters and exit codes (exer
            'user-defined steps / map_action / map_assertion', 'charts other than the fixed one']
 YAML = '''statechart:
   name: bdd
-  preamble: x = X0
+  preamble: |
+    x = X0
+    nothing = None
+    zero = 0
   root state:
     name: root
     initial: A
@@ -223,10 +228,13 @@ class Driver:
         if text.startswith('variable '):
             if w[1] not in it.context:
                 return False
-            val = it.context[w[1]]
+            val = it.context[w[1]]      # a defined variable may hold any value, None and 0 included
+            import ast
+            lit = ast.literal_eval(w[-1])
+            same = Eq(val, lit) if (isinstance(lit, int) and val is not None) else (val == lit)
             if 'does not equal' in text:
-                return Not(Eq(val, int(w[-1])))
-            return Eq(val, int(w[-1]))
+                return Not(same)
+            return same
         if text.startswith('expression '):
             holds = Eq(it.context['x'], 3)
             return Not(holds) if text.endswith('does not hold') else holds
